@@ -46,7 +46,7 @@ impl El for Unit {
 macro_rules! int_el {
     ($t:ty, $base:expr) => {
         impl El for $t {
-            const CLASSES: u32 = 40;
+            const CLASSES: u32 = 200;
             const TAGS: u32 = 1;
             fn make(c: u32, _: u32) -> $t {
                 ($base) + c as $t
@@ -59,9 +59,9 @@ macro_rules! int_el {
 }
 int_el!(u8, 3u8);
 int_el!(u32, 0x0a0b_0c00u32);
-int_el!(u64, 0xffff_ffff_ffff_ff00u64 - 64);
+int_el!(u64, 0xffff_ffff_ffff_fe00u64);
 impl El for [u8; 3] {
-    const CLASSES: u32 = 40;
+    const CLASSES: u32 = 200;
     const TAGS: u32 = 1;
     fn make(c: u32, _: u32) -> [u8; 3] {
         [c as u8, 0xee, 0xdd]
@@ -75,7 +75,7 @@ impl El for [u8; 3] {
 #[repr(align(16))]
 pub struct A16(u8);
 impl El for A16 {
-    const CLASSES: u32 = 40;
+    const CLASSES: u32 = 200;
     const TAGS: u32 = 1;
     fn make(c: u32, _: u32) -> A16 {
         A16(c as u8)
@@ -94,7 +94,7 @@ impl PartialEq for A64 {
 }
 impl Eq for A64 {}
 impl El for A64 {
-    const CLASSES: u32 = 40;
+    const CLASSES: u32 = 200;
     const TAGS: u32 = 3;
     fn make(c: u32, t: u32) -> A64 {
         A64(c as u16, t as u16)
@@ -163,7 +163,7 @@ impl El for &'static str {
     }
 }
 impl El for String {
-    const CLASSES: u32 = 40;
+    const CLASSES: u32 = 200;
     const TAGS: u32 = 1;
     fn make(c: u32, _: u32) -> String {
         format!("k{c}")
@@ -186,7 +186,7 @@ thread_local! {
 }
 impl Eq for RcE {}
 impl El for RcE {
-    const CLASSES: u32 = 40;
+    const CLASSES: u32 = 200;
     const TAGS: u32 = 4;
     fn make(c: u32, t: u32) -> RcE {
         let r = Rc::new((c, t));
@@ -356,8 +356,20 @@ fn map_sweep<K: El, V: El, const N: usize>(name: &str, fam: &str, seed: u64) -> 
     let mut rng = Rng(seed ^ 0x51ed_27a1);
     let mut m: Map<K, V, N> = Map::new();
     let mut r: Ref<K, V> = Ref { v: Vec::new() };
-    let has = |c: char| fam.contains(c);
+    // the dictionary operations always run: they build the states the other families need
+    let has = |c: char| c == 'd' || fam.contains(c);
     let steps = if N > 100 { 40 } else { 90 };
+    if N > 100 {
+        // a long container: code that switches strategy with the length (blocks, bitmaps of 64 …)
+        for c in 0..K::CLASSES.min(70) {
+            let (k, v) = (K::make(c, 0), V::make(c % V::CLASSES, 0));
+            if r.pos(&k).is_none() {
+                m.insert(k.clone(), v.clone());
+                r.v.push((k, v));
+            }
+        }
+        check_map(&mut m, &r, &format!("{name}: {} insertions", r.v.len()))?;
+    }
     for step in 0..steps {
         let k: K = pick::<K, N>(&mut rng);
         let v: V = V::make(rng.below(V::CLASSES), rng.below(V::TAGS));
@@ -793,7 +805,7 @@ fn map_sweep<K: El, V: El, const N: usize>(name: &str, fam: &str, seed: u64) -> 
             21 if has('q') => {
                 what = "clone and ==".into();
                 let mut c = m.clone();
-                let mut big: Map<K, V, 48> = Map::new();
+                let mut big: Map<K, V, 128> = Map::new();
                 for (a, b) in r.v.iter().rev() {
                     big.insert(a.clone(), b.clone());
                 }
@@ -952,8 +964,17 @@ fn set_sweep<K: El, const N: usize>(name: &str, fam: &str, seed: u64) -> Result<
     let mut rng = Rng(seed ^ 0x7e57_5e75);
     let mut s: Set<K, N> = Set::new();
     let mut r: Vec<K> = Vec::new();
-    let has = |c: char| fam.contains(c);
-    for step in 0..70 {
+    let has = |c: char| c == 's' || fam.contains(c);
+    if N > 100 {
+        for c in 0..K::CLASSES.min(70) {
+            let k = K::make(c, 0);
+            if !r.iter().any(|x| *x == k) {
+                s.insert(k.clone());
+                r.push(k);
+            }
+        }
+    }
+    for step in 0..(if N > 100 { 30 } else { 70 }) {
         let k: K = pick::<K, N>(&mut rng);
         let pos = r.iter().position(|x| *x == k);
         let full_new = r.len() == N && pos.is_none();
@@ -1085,7 +1106,7 @@ fn set_sweep<K: El, const N: usize>(name: &str, fam: &str, seed: u64) -> Result<
                 what = "iter / clone / ==".into();
                 check_iter(&format!("{name}: Set::iter()"), s.iter(), r.len(), |a| a.id(), &mut rng)?;
                 let c = s.clone();
-                let mut big: Set<K, 48> = Set::new();
+                let mut big: Set<K, 128> = Set::new();
                 for x in r.iter().rev() {
                     big.insert(x.clone());
                 }
@@ -1108,9 +1129,9 @@ fn set_sweep<K: El, const N: usize>(name: &str, fam: &str, seed: u64) -> Result<
             12..=15 if has('a') => {
                 what = "set algebra".into();
                 // a second operand of another capacity, overlapping with the first
-                let mut o: Set<K, 9> = Set::new();
+                let mut o: Set<K, 96> = Set::new();
                 let mut ro: Vec<K> = Vec::new();
-                for _ in 0..rng.below(8) {
+                for _ in 0..(if N > 100 { 66 + rng.below(24) } else { rng.below(8) }) {
                     let x: K = K::make(rng.below(K::CLASSES.min(N as u32 + 4)), rng.below(K::TAGS));
                     if !ro.iter().any(|y| *y == x) {
                         ro.push(x.clone());
@@ -1190,7 +1211,7 @@ fn set_sweep<K: El, const N: usize>(name: &str, fam: &str, seed: u64) -> Result<
                 lazy!("symmetric_difference", s.symmetric_difference(&o), &y);
                 // sets of references: difference_ref
                 let sr: Set<&K, N> = s.iter().collect();
-                let or: Set<&K, 9> = o.iter().collect();
+                let or: Set<&K, 96> = o.iter().collect();
                 let dr: Vec<Id> = sr.difference_ref(&or).map(|x| x.id()).collect();
                 if sorted(dr.clone()) != want_d {
                     bail!("{name}: difference_ref yields {dr:?}, expected {want_d:?}");
